@@ -8,7 +8,7 @@ E2: every solution is checked directly (walks of the caller's graph, weights * m
 import math
 from fractions import Fraction as F
 import networkx as nx
-import common, gen, gen2, lpdump, e1, e1cyc, props, oracle_walks as ow
+import common, gen, gen2, lpdump, e1, e1cyc, props, oracle_walks as ow, voracle_walks
 
 LEVEL = "proof"
 EXPLANATION = (
@@ -378,6 +378,12 @@ def check_minimality(ctx, args, res, flow, kind, label=""):
     if upto < 1:
         ctx.count("E2_minimality", "optimal_trivially"); return True
     k_spec, wit = oracle_min(G, flow, kind, upto, cons, cov)
+    if kind == "int" and voracle_walks.in_reach(G, flow, upto, cons, args.get("elements_to_ignore") or ()):
+        k_ver = voracle_walks.verified_min(ctx, G, {e: int(v) for e, v in flow.items()}, upto)
+        ctx.count("E2_minimality", "verified_oracle_decided")
+        if k_ver != k_spec:
+            ctx.report(f"the verified oracle WalkOracle.min_wfd_model says the least number of walks (<= {upto}) is {k_ver}, the Python search {k_spec}",
+                       {"kind": "oracle_cross_check", "args": describe(args), "verified": k_ver, "python": k_spec}, concrete=False)
     if k_spec is None:
         if impl_k is None:
             ctx.count("E2_minimality", "unsolved_and_no_small_decomposition")
